@@ -350,20 +350,36 @@ func c17Eval(cs *Case, ctx *EvalCtx) []Violation {
 			return vs
 		}
 	}
-	// a later instant never reads as an earlier time, the same instant reads the same
+	// a later instant never reads as an earlier time, the same instant reads the same. A call's
+	// instant is only known as a span (the marker and every reading taken until the next one —
+	// readings may also come from a goroutine of the implementation), so only spans that do not
+	// overlap are compared.
 	vals := make([]float64, len(ls))
 	for k, l := range ls {
 		vals[k], _ = strconv.ParseFloat(l, 64)
 	}
+	span := func(r callRef) (lo, hi int64) {
+		lo, hi = r.at, r.at
+		for _, n := range r.reads {
+			if n < lo {
+				lo = n
+			}
+			if n > hi {
+				hi = n
+			}
+		}
+		return
+	}
 	for a := 0; a < len(vals); a++ {
 		for b := 0; b < len(vals); b++ {
-			ta, tb := nows[ex.PrintOrder[a]], nows[ex.PrintOrder[b]]
-			if ta < tb && vals[a] > vals[b] {
-				add("clock-not-monotonic", fmt.Sprintf("the wall clock went from %d ms to %d ms but ক্লক() went from %v to %v", ta, tb, vals[a], vals[b]))
+			loA, hiA := span(refs[ex.PrintOrder[a]])
+			loB, hiB := span(refs[ex.PrintOrder[b]])
+			if hiA < loB && vals[a] > vals[b] {
+				add("clock-not-monotonic", fmt.Sprintf("the wall clock went from (at most) %d ms to (at least) %d ms but ক্লক() went from %v to %v", hiA, loB, vals[a], vals[b]))
 				return vs
 			}
-			if ta == tb && vals[a] != vals[b] {
-				add("clock-not-monotonic", fmt.Sprintf("two reads at the same instant (%d ms) gave %v and %v", ta, vals[a], vals[b]))
+			if loA == hiA && loB == hiB && loA == loB && vals[a] != vals[b] {
+				add("clock-not-monotonic", fmt.Sprintf("two calls at the same instant (%d ms) gave %v and %v", loA, vals[a], vals[b]))
 				return vs
 			}
 		}
